@@ -22,9 +22,10 @@ def _weight(e):
 def run(chk, replay=None):
     thorough = chk.tier == "thorough"
     w = core.workdir("c15")
+    dev_fast = bool(os.environ.get("VERIF_DEV_NOMODELS"))  # builder's shortcut for mutation runs: (V) part only
     # ---------------- (M) addition-chain builders, width-aware
     longest = []
-    for cfg in ["AddChain_8.cfg", "AddChain_12.cfg", "AddChain_16.cfg"]:
+    for cfg in (["AddChain_16.cfg"] if dev_fast else ["AddChain_8.cfg", "AddChain_12.cfg", "AddChain_16.cfg"]):
         r = core.model_check("edwards/AddChain.tla", cfg, workers=4, timeout=900)
         chk.add_mc(r)
         if cfg == "AddChain_16.cfg":
@@ -40,10 +41,10 @@ def run(chk, replay=None):
         if inv not in r["violated"]:
             raise core.ToolError("model %s no longer exhibits the documented hazard %s" % (cfg, inv))
         chk.notes.append({"model": cfg, "hazard": what, "tlc_counterexample_found": True})
-    for cfg in (["AddChainLong_6_2.cfg", "AddChainLong_5_3.cfg"] + (["AddChainLong_8_2.cfg", "AddChainLong_6_3.cfg"] if thorough else [])):
+    for cfg in ([] if dev_fast else ["AddChainLong_6_2.cfg", "AddChainLong_5_3.cfg"] + (["AddChainLong_8_2.cfg", "AddChainLong_6_3.cfg"] if thorough else [])):
         chk.add_mc(core.model_check("edwards/AddChainLong.tla", cfg, workers=4, timeout=1500))
     # ---------------- (M) formula sets against the definition on a toy ring, all curve points
-    for cfg in (["Edwards_35.cfg"] + (["Edwards_77.cfg", "Edwards_221.cfg"] if thorough else [])):
+    for cfg in ([] if dev_fast else ["Edwards_35.cfg"] + (["Edwards_77.cfg", "Edwards_221.cfg"] if thorough else [])):
         chk.add_mc(core.model_check("edwards/Edwards.tla", cfg, workers=4, timeout=1700))
     # ---------------- (I) input space, (G) longest-chain scalars from the model
     shapes_p = os.path.join(w, "shapes.ndjson")
